@@ -1860,7 +1860,9 @@ foamToSExpr0(Foam foam)
 	argf  = foamInfo(foamTag(foam)).argf;
 	sx    = sxCons(foamSExpr(foamTag(foam)), sx);
 
-	isDecl = foamTag(foam) == FOAM_Decl || foamTag(foam) == FOAM_GDecl;
+	/* The 'w' field of a Decl is a syme index, meaningless outside this
+	 * run; the 'w' field of a GDecl is its return type and must be kept. */
+	isDecl = foamTag(foam) == FOAM_Decl;
 
 	for (si = fi = 0; si < foamArgc(foam); si++, fi++) {
 		if (argf[fi] == '*') fi--;
